@@ -102,6 +102,8 @@ func (v *Verifier) markCallWrites(ms *loopModSet, call *ast.CallExpr) {
 				}
 			case it.Kind == "call" && it.X.Kind == "ident" && it.X.Name == "global":
 				ms.globals = true
+			case it.Kind == "call" && it.X.Kind == "ident" && v.eng.ghostFields[it.X.Name] != nil:
+				ms.heapKind["GF_"+it.X.Name] = true
 			case it.Kind == "ident":
 				if ae := argOf(it.Name); ae != nil {
 					v.markBaseWrite(ms, ae)
